@@ -28,7 +28,7 @@ m = {
     "setup_cmd": "./verif list > /dev/null",
     "hooks": {
         "guard": "kani",
-        "enable": "no committed hooks: each check copies /repo's working tree to a scratch directory and appends `#[cfg(kani)] mod verif_*` harness modules (and cfg(kani)-guarded contract-stub dispatch lines) there; cfg(kani) is set only by the Kani compiler",
+        "enable": "no committed hooks: each check copies /repo's working tree to a scratch directory and appends `#[cfg(kani)] mod verif_*` harness modules and cfg(kani)-guarded dispatch lines (contract stubs, token queue, panic-point hooks, one cut point in AIGER parse()) there; tokenizer-level groups additionally swap flussab/src/deferred_reader.rs for the reader model (harness/flussab/reader_model.rs) whose soundness is the C02 check; cfg(kani) is set only by the Kani compiler, so nothing of this exists in a normal build",
         "baseline_off_cmd": "cd /repo && cargo test --workspace --no-fail-fast --offline",
         "source_commits": [],
         "add_only": True,
